@@ -379,6 +379,27 @@ class float128(floating):
     _rank = 7
 
 
+class str_(generic):
+    __slots__ = ()
+    _kind = "U"
+    _name = "str"
+    _rank = 20
+
+
+class object_(generic):
+    __slots__ = ()
+    _kind = "O"
+    _name = "object"
+    _rank = 21
+
+
+class complex128(generic):
+    __slots__ = ()
+    _kind = "c"
+    _name = "complex128"
+    _rank = 22
+
+
 longdouble = float128
 intp = int_ = int64
 double = float_ = float64
